@@ -14,6 +14,17 @@ NA = {}
 ALL = ["C%02d" % i for i in range(1, 21)]
 
 def main():
+    ed = os.path.join(ROOT, 'rv', 'manifest_entries')
+    if os.path.isdir(ed):
+        for f in sorted(os.listdir(ed)):
+            if f.endswith('.json'):
+                e = json.load(open(os.path.join(ed, f)))
+                if e.get('not_applicable'):
+                    NA[f[:-5]] = e['not_applicable']
+                else:
+                    e.setdefault('note', '')
+                    e['note'] = TB + e['note']
+                    CHECKS[f[:-5]] = e
     checks = []
     for pid in ALL:
         if pid in CHECKS:
